@@ -29,7 +29,8 @@ Uses the C01 driver's state for `caps`/`size`/`dict`/`cell`/`showcursor`/`hidecu
       the model emulator continues from the implementation's state (after start-up and after a resize)
   emustate \t <full emulator snapshot>
       model-canon vs impl-canon: THE COMPOSITION OF THE MODELS — the renderer model's tokens for the
-      frame just rendered (`renderFrameC`), through the wire `Model.C12Compose.opsOfToks`, run by the
+      frame just rendered (`renderFrameC`), through the wire `Model.C12Compose.opsOfToksM` (= `opsOfToks`
+      plus the parser's clustering of consecutive text, pairs declared by `merges a b cluster` lines), run by the
       emulator model (`runOps`) from the previous state — against the real emulator's full state after
       the real renderer's bytes went through the real parser (`=` when every snapshot token agrees).
 
@@ -61,6 +62,8 @@ structure St where
   qReplies : List VaxisModel.Model.Input.Seq := []
   /-- reply exchange: the background colour the attached host reports (`replies`' `hostBg`) -/
   qBg : Option (Nat × Nat × Nat) := none
+  /-- grapheme pairs the emulator's parser merges when written back to back: (a, b, the cluster) -/
+  merges : List (String × String × String) := []
   /-- the application's screen and cursor of the frame just rendered (for the read-back verdict) -/
   want : Option (List (List DCell) × Option (Int × Int × Int)) := none
   deriving Inhabited
@@ -94,7 +97,13 @@ def modelFrame (s : St) (next : Grid) (forceRefresh : Bool) : St :=
   let f : Frame := { caps := b.caps, refresh := refresh, next := next, last := b.last,
                      cursorNext := b.cn, cursorLast := b.cl, shapeNext := b.shapeN, shapeLast := b.shapeL }
   let (last', mtoks) := renderFrameC (C01.cwOf b.dict) f
-  let ops := VaxisModel.Model.C12Compose.opsOfToks decHex (C01.cwOf b.dict) mtoks
+  -- the wire WITH the parser's clustering of consecutive text (`merges` / `cat` as declared by the harness)
+  let mg : String → String → Bool := fun x y => s.merges.any fun m => m.1 == x && m.2.1 == y
+  let ct : String → String → String := fun x y =>
+    match s.merges.find? (fun m => m.1 == x && m.2.1 == y) with
+    | some m => m.2.2
+    | none => x ++ y
+  let ops := VaxisModel.Model.C12Compose.opsOfToksM mg ct decHex (C01.cwOf b.dict) mtoks
   let (em, dead) := match s.emuM with
     | some e => (match VaxisModel.Model.Emu.runOps e ops with
                  | .ok e' => (some e', s.emuDead)
@@ -153,6 +162,7 @@ def step (s : St) (line : String) : St × String :=
   let (op, impl) := splitTab line
   match fields op with
   | "#case" :: _ => ({}, "-\t-\t-")
+  | ["merges", a, b, c] => ({ s with merges := (C01.unhex a, C01.unhex b, C01.unhex c) :: s.merges }, "-\t-\t-")
   | "emuqstart" :: w :: h :: host =>
       -- `host`: nothing = no host Vaxis attached; "-" = attached, background unknown; r g b = attached, background known
       match w.toInt?, h.toInt? with
@@ -232,9 +242,9 @@ def step (s : St) (line : String) : St × String :=
             else if VaxisModel.Model.C12Read.readCursor sn.e != cur then
               "FAIL read-back of the emulator's cursor (readCursor) is not the requested cursor"
             else "ok"
-        -- a frame of this case already failed the oracle (reported as a violation / known finding, e.g.
-        -- F112d where the real parser merges two cells' graphemes into one cluster): no cascade
-        let out := if s.dead then "-\t-\t-" else match s.emuM with
+        -- also compared when a frame of this case already failed the oracle (known findings F112b / F112d):
+        -- the MODELS reproduce those too (the wire models the parser's clustering, `opsOfToksM`)
+        let out := match s.emuM with
           | some e =>
             let (a, b) := C05diff (VaxisModel.Model.EmuIO.renderSnap { e with hasVx := false }) istr
             s!"{a}\t{b}\t{rb}"
